@@ -222,6 +222,8 @@ class HelicityModel:
         symbols |= set(self.kinematic_variables)
         for expr in self.kinematic_variables.values():
             symbols |= expr.free_symbols  # type: ignore[arg-type]
+        # parameters that do not (or no longer) appear in the expressions
+        symbols |= {par for par in self.parameter_defaults if isinstance(par, sp.Symbol)}
         return symbols
 
 
